@@ -3,7 +3,7 @@ import os, json
 import common
 from common import VERIF, COQ, BIN, CheckError
 
-CONE = ["Base/Str.v", "Base/Json.v", "Sem/Schema.v", "Sem/SchemaRun.v", "Sem/SchemaLemmas.v"]
+CONE = ["Base/Str.v", "Base/Json.v", "Sem/Schema.v", "Sem/SchemaLemmas.v", "Sem/PropCount.v", "Sem/SchemaRun.v"]
 CFG = {
     "C02": dict(props="Props/C02.v", report="c02.json", cases="", where="compiled generated models (Unmarshal+Validate) vs gen_accepts / go-openapi/validate vs ref_valid"),
     "C05": dict(props="Props/C05.v", report="c05.json", cases="rt", where="json.Marshal(json.Unmarshal(doc)) of the compiled generated models vs rt"),
